@@ -24,9 +24,10 @@ import (
 // against one ocimem (directly, or each through its own ociclient over the
 // simulated network into one shared ociserver). The simulator decides the
 // interleaving at every mutex acquisition and every network boundary.
-//   engine A (synctest bubble): the recorded history is checked for
-//     linearizability against refreg with porcupine, plus directed invariants;
-//   engine B (race detector under the same kind of serial schedule): no data race.
+//
+//	engine A (synctest bubble): the recorded history is checked for
+//	  linearizability against refreg with porcupine, plus directed invariants;
+//	engine B (race detector under the same kind of serial schedule): no data race.
 func init() {
 	core.Components["C08"] = [2][]string{
 		{"ocimem (shared by all tasks)", "ociserver + ociclient (HTTP family)", "sync.Mutex acquisitions of the library (rewritten to simulator yield points)"},
@@ -276,77 +277,77 @@ func c08(env *core.Env, kind string, immutable bool) {
 		})
 	}
 	env.Finally(func() {
-	var all []histEntry
-	for _, h := range hists {
-		all = append(all, h...)
-	}
-	sort.Slice(all, func(i, j int) bool { return all[i].call < all[j].call })
-	// The final state is part of the history: once every task has returned, one more
-	// client reads everything in the key space (and everything a commit reported).
-	last := int64(0)
-	for _, e := range all {
-		last = max(last, e.ret, e.call)
-	}
-	final := func(op *reg.Op) {
-		op.StopAfter, op.ContentFault = -1, -1
-		e := histEntry{task: ntasks, op: op, call: last + 1, ret: last + 2}
-		last += 2
-		e.res = reg.Exec(ctx, mem, op, nil)
-		all = append(all, e)
-	}
-	final(&reg.Op{Kind: reg.Repositories})
-	committed := map[ociregistry.Digest]bool{}
-	for _, e := range all {
-		if e.op.Kind == reg.UpCommit && e.res.Err == nil {
-			committed[e.res.Desc.Digest] = true
+		var all []histEntry
+		for _, h := range hists {
+			all = append(all, h...)
 		}
-	}
-	for _, rp := range append(append([]string{}, pools.repos...), pools.extra...) {
-		final(&reg.Op{Kind: reg.Tags, Repo: rp})
-		for _, b := range pools.blobs {
-			final(&reg.Op{Kind: reg.GetBlob, Repo: rp, Digest: reg.Sha256(b)})
+		sort.Slice(all, func(i, j int) bool { return all[i].call < all[j].call })
+		// The final state is part of the history: once every task has returned, one more
+		// client reads everything in the key space (and everything a commit reported).
+		last := int64(0)
+		for _, e := range all {
+			last = max(last, e.ret, e.call)
 		}
-		for _, mn := range pools.mans {
-			final(&reg.Op{Kind: reg.GetManifest, Repo: rp, Digest: reg.Sha256(mn.data)})
+		final := func(op *reg.Op) {
+			op.StopAfter, op.ContentFault = -1, -1
+			e := histEntry{task: ntasks, op: op, call: last + 1, ret: last + 2}
+			last += 2
+			e.res = reg.Exec(ctx, mem, op, nil)
+			all = append(all, e)
 		}
-		for _, tg := range pools.tags {
-			final(&reg.Op{Kind: reg.GetTag, Repo: rp, Tag: tg})
-		}
-		if rp == pools.repos[0] {
-			for _, d := range sortedDigestKeys(committed) {
-				final(&reg.Op{Kind: reg.GetBlob, Repo: rp, Digest: d})
+		final(&reg.Op{Kind: reg.Repositories})
+		committed := map[ociregistry.Digest]bool{}
+		for _, e := range all {
+			if e.op.Kind == reg.UpCommit && e.res.Err == nil {
+				committed[e.res.Desc.Digest] = true
 			}
 		}
-	}
-	active := 0
-	for _, h := range hists {
-		if len(h) > 0 {
-			active++
-		}
-	}
-	for _, e := range all {
-		env.Op(e.op.Kind.String())
-		env.Logf("task %d [%d,%d] %s -> %s", e.task, e.call, e.ret, e.op, e.res)
-		env.Sample("task %d [%d,%d] %s -> %s", e.task, e.call, e.ret, e.op, e.res)
-	}
-	if active < 2 {
-		return
-	}
-	// invariant: whatever a read returned with a clean EOF hashes to the digest asked for
-	for _, e := range all {
-		if (e.op.Kind == reg.GetBlob || e.op.Kind == reg.GetManifest) && e.res.Err == nil && e.res.ReadErr == nil {
-			if reg.Sha256(e.res.Data) != e.op.Digest {
-				env.Failf(env.Property+"/stored-content-digest-mismatch/"+e.op.Kind.String(), "task %d: %s returned %d bytes that do not hash to the digest asked for", e.task, e.op, len(e.res.Data))
+		for _, rp := range append(append([]string{}, pools.repos...), pools.extra...) {
+			final(&reg.Op{Kind: reg.Tags, Repo: rp})
+			for _, b := range pools.blobs {
+				final(&reg.Op{Kind: reg.GetBlob, Repo: rp, Digest: reg.Sha256(b)})
+			}
+			for _, mn := range pools.mans {
+				final(&reg.Op{Kind: reg.GetManifest, Repo: rp, Digest: reg.Sha256(mn.data)})
+			}
+			for _, tg := range pools.tags {
+				final(&reg.Op{Kind: reg.GetTag, Repo: rp, Tag: tg})
+			}
+			if rp == pools.repos[0] {
+				for _, d := range sortedDigestKeys(committed) {
+					final(&reg.Op{Kind: reg.GetBlob, Repo: rp, Digest: d})
+				}
 			}
 		}
-	}
-	if core.EngineB {
-		return // engine B's oracle is the race detector
-	}
-	if env.Property != "C08" {
-		return // (C01 runs this family for its digest invariant only)
-	}
-	checkLinearizable(env, m0, all, "C08")
+		active := 0
+		for _, h := range hists {
+			if len(h) > 0 {
+				active++
+			}
+		}
+		for _, e := range all {
+			env.Op(e.op.Kind.String())
+			env.Logf("task %d [%d,%d] %s -> %s", e.task, e.call, e.ret, e.op, e.res)
+			env.Sample("task %d [%d,%d] %s -> %s", e.task, e.call, e.ret, e.op, e.res)
+		}
+		if active < 2 {
+			return
+		}
+		// invariant: whatever a read returned with a clean EOF hashes to the digest asked for
+		for _, e := range all {
+			if (e.op.Kind == reg.GetBlob || e.op.Kind == reg.GetManifest) && e.res.Err == nil && e.res.ReadErr == nil {
+				if reg.Sha256(e.res.Data) != e.op.Digest {
+					env.Failf(env.Property+"/stored-content-digest-mismatch/"+e.op.Kind.String(), "task %d: %s returned %d bytes that do not hash to the digest asked for", e.task, e.op, len(e.res.Data))
+				}
+			}
+		}
+		if core.EngineB {
+			return // engine B's oracle is the race detector
+		}
+		if env.Property != "C08" {
+			return // (C01 runs this family for its digest invariant only)
+		}
+		checkLinearizable(env, m0, all, "C08")
 	})
 }
 
@@ -496,25 +497,25 @@ func c08retag(env *core.Env) {
 		})
 	}
 	env.Finally(func() {
-	env.Sample("versions=%d readers=%d reads=%d http=%v", nver, nreaders, nreads, useHTTP)
-	for k, rs := range results {
-		for i, o := range rs {
-			env.Op(fmt.Sprintf("gettag:%v", o.err == nil))
-			env.Logf("reader %d read %d -> %d bytes err=%v", k, i, len(o.data), o.err)
-			if o.err != nil {
-				env.Failf("C08/tag-reported-missing", "reader %d: GetTag(%q) failed with %q although the tag pointed at an existing manifest at every instant (the writer re-tags before it deletes the previous manifest)", k, tag, o.err)
-			}
-			okv := false
-			for v := 0; v <= nver; v++ {
-				if string(o.data) == string(mk(v)) {
-					okv = true
+		env.Sample("versions=%d readers=%d reads=%d http=%v", nver, nreaders, nreads, useHTTP)
+		for k, rs := range results {
+			for i, o := range rs {
+				env.Op(fmt.Sprintf("gettag:%v", o.err == nil))
+				env.Logf("reader %d read %d -> %d bytes err=%v", k, i, len(o.data), o.err)
+				if o.err != nil {
+					env.Failf("C08/tag-reported-missing", "reader %d: GetTag(%q) failed with %q although the tag pointed at an existing manifest at every instant (the writer re-tags before it deletes the previous manifest)", k, tag, o.err)
+				}
+				okv := false
+				for v := 0; v <= nver; v++ {
+					if string(o.data) == string(mk(v)) {
+						okv = true
+					}
+				}
+				if !okv {
+					env.Failf("C08/tag-served-foreign-bytes", "reader %d: GetTag returned %q which no writer ever pushed", k, o.data)
 				}
 			}
-			if !okv {
-				env.Failf("C08/tag-served-foreign-bytes", "reader %d: GetTag returned %q which no writer ever pushed", k, o.data)
-			}
 		}
-	}
 	})
 }
 
@@ -565,24 +566,24 @@ func c08commitWrite(env *core.Env) {
 		})
 	}
 	env.Finally(func() {
-	env.Op(fmt.Sprintf("commit:%v/writers=%d", commitErr == nil, nwriters))
-	env.Sample("commit racing with %d writers -> %v %v", nwriters, commitDesc, commitErr)
-	env.Logf("commit -> %v %v", commitDesc, commitErr)
-	// whatever is stored under the digest must hash to it
-	br, err := mem.GetBlob(ctx, repo, reg.Sha256(base))
-	if err != nil {
-		if commitErr == nil {
-			env.Failf(env.Property+"/commit-lost", "Commit succeeded but the blob is not there: %v", err)
+		env.Op(fmt.Sprintf("commit:%v/writers=%d", commitErr == nil, nwriters))
+		env.Sample("commit racing with %d writers -> %v %v", nwriters, commitDesc, commitErr)
+		env.Logf("commit -> %v %v", commitDesc, commitErr)
+		// whatever is stored under the digest must hash to it
+		br, err := mem.GetBlob(ctx, repo, reg.Sha256(base))
+		if err != nil {
+			if commitErr == nil {
+				env.Failf(env.Property+"/commit-lost", "Commit succeeded but the blob is not there: %v", err)
+			}
+			return
 		}
-		return
-	}
-	data, _ := readAll(br)
-	if reg.Sha256(data) != reg.Sha256(base) {
-		env.Failf(env.Property+"/stored-content-digest-mismatch/commit", "after a commit that raced with writes, the blob stored under %s has %d bytes (%q) that do not hash to it", reg.Sha256(base), len(data), data)
-	}
-	if commitErr == nil && commitDesc.Size != int64(len(base)) && commitDesc.Size != int64(len(data)) {
-		env.Failf(env.Property+"/commit-descriptor-size", "Commit returned size %d for a blob of %d bytes", commitDesc.Size, len(data))
-	}
+		data, _ := readAll(br)
+		if reg.Sha256(data) != reg.Sha256(base) {
+			env.Failf(env.Property+"/stored-content-digest-mismatch/commit", "after a commit that raced with writes, the blob stored under %s has %d bytes (%q) that do not hash to it", reg.Sha256(base), len(data), data)
+		}
+		if commitErr == nil && commitDesc.Size != int64(len(base)) && commitDesc.Size != int64(len(data)) {
+			env.Failf(env.Property+"/commit-descriptor-size", "Commit returned size %d for a blob of %d bytes", commitDesc.Size, len(data))
+		}
 	})
 }
 
